@@ -19,6 +19,10 @@ func runC13(p *core.Prog, r *core.Report) {
 	c13Mask(c)
 	c13Wiring(c)
 	noArgMutation(c, "R13.4", "crypto/mta", "crypto/paillier")
+	// the with-check binding of Bob's public point: the commitment U and the point X are hashed on both sides
+	c12Provers(c, 10, "bob-wc", "range-alice")
+	c12Verifiers(c, 10, "bob-wc", "range-alice")
+	c13WithCheck(c)
 	c.r.Floor("R13.4", 30)
 }
 
@@ -265,4 +269,107 @@ func noArgMutation(c *ctx, rule string, rels ...string) {
 func c13Wiring(c *ctx) {
 	// R13.2 is evaluated with the protocol model (ecdsa/signing rounds 2 and 3); see wiring.go
 	c13RoundWiring(c)
+}
+
+// c13WithCheck (R13.5): in ProofBobWC.Verify the public-point equation g^(s1 mod q) = X^e + U is
+// executed on every accepting path on which X is non-nil, and AliceEndWC passes its B there.
+func c13WithCheck(c *ctx) {
+	const rule = "R13.5"
+	fn := c.mustMethod(rule, "crypto/mta", "ProofBobWC", "Verify")
+	if fn == nil {
+		return
+	}
+	accept := acceptBlocks(fn, 0, true)
+	var found *eqGuard
+	for _, e := range collectEquations(c, fn) {
+		if e.kind == "equals" && e.deps["U"] && e.deps["S1"] && e.deps["param:9"] && e.deps["challenge"] {
+			found = e
+		}
+	}
+	key := fkey(rule, fn, "public-point-equation")
+	if found == nil || found.iff == nil {
+		c.r.Bad(rule, key, c.fpos(fn), "no rejecting Equals guard over (U, S1, X, challenge): Bob's multiplier is not tied to his public point")
+		return
+	}
+	// every path from the X != nil edge to acceptance passes the safe edge of the guard:
+	// with that edge removed, acceptance must only be reachable with X == nil
+	ok := true
+	why := ""
+	xIsNil := func(b *ssa.BasicBlock) bool {
+		for _, f := range core.FactsAt(b) {
+			if f.Kind == core.FNil && f.Bool && core.TermOf(f.X).Key() == paramTerm(fn, 9).Key() {
+				return true
+			}
+		}
+		return false
+	}
+	gb := found.iff.Block()
+	for _, a := range accept {
+		for _, path := range pathsAvoidingEdge(fn, gb, found.side, a) {
+			// a path avoiding the guard exists: every such path must go through an X == nil edge
+			if !path {
+				continue
+			}
+		}
+	}
+	// simpler sound formulation: the guard block is dominated by X != nil, and every block that is
+	// (a) reachable when X != nil and (b) can reach accept without the guard's safe edge … does not exist
+	if !reachableOnlyIfNil(fn, gb, found.side, accept, paramTerm(fn, 9)) {
+		ok = false
+		why = "acceptance is reachable with X != nil without passing the public-point equation"
+	}
+	_ = xIsNil
+	c.r.Check(ok, rule, key, c.p.Pos(found.pos), "whenever X is non-nil, acceptance requires g^(s1 mod q) == X^e + U", why)
+	c.r.Floor(rule, 1)
+}
+
+func pathsAvoidingEdge(fn *ssa.Function, from *ssa.BasicBlock, si int, to *ssa.BasicBlock) []bool { return nil }
+
+// reachableOnlyIfNil: remove the safe edge (gb→Succs[side]) of the guard; then every path from the
+// entry to an accepting block must traverse an edge on which `x == nil` is established.
+func reachableOnlyIfNil(fn *ssa.Function, gb *ssa.BasicBlock, side int, accept []*ssa.BasicBlock, x *T) bool {
+	// edges that establish x == nil
+	type edge struct {
+		b  *ssa.BasicBlock
+		si int
+	}
+	nilEdges := map[edge]bool{}
+	for _, b := range fn.Blocks {
+		if len(b.Instrs) == 0 {
+			continue
+		}
+		iff, ok := b.Instrs[len(b.Instrs)-1].(*ssa.If)
+		if !ok {
+			continue
+		}
+		for s := 0; s < 2; s++ {
+			for _, f := range core.CondFacts(iff.Cond, s == 0, iff) {
+				if f.Kind == core.FNil && f.Bool && core.TermOf(f.X).Key() == x.Key() {
+					nilEdges[edge{b, s}] = true
+				}
+			}
+		}
+	}
+	// DFS from entry avoiding the guard's safe edge and all nil-establishing edges
+	seen := map[*ssa.BasicBlock]bool{fn.Blocks[0]: true}
+	st := []*ssa.BasicBlock{fn.Blocks[0]}
+	for len(st) > 0 {
+		b := st[len(st)-1]
+		st = st[:len(st)-1]
+		for i, s := range b.Succs {
+			if (b == gb && i == side) || nilEdges[edge{b, i}] {
+				continue
+			}
+			if !seen[s] {
+				seen[s] = true
+				st = append(st, s)
+			}
+		}
+	}
+	for _, a := range accept {
+		if seen[a] {
+			return false
+		}
+	}
+	return true
 }
